@@ -252,6 +252,12 @@ def configs(tier):
             for pattern in ('0:00', '0:01', '0:02'):
                 for work in (0, 3):
                     out.append((delays, work, 1.0, 'logical', (pos, pattern)))
+    # a time of day that has already arrived when the script reaches it, a little behind its schedule: the time line
+    # restarts there all the same (fine ticks, so that a delay laid on the old time line is seen to end early)
+    for delays in ((1, 2.5), (2.5, 1), (0.5, 1)):
+        for pos in range(1, len(delays) + 1):
+            for work in (0.4, 0.7):
+                out.append((delays, work, 0.3, 'logical', (pos, '0:00')))
     # the same job executed twice in a row (device work makes the first run end after its last cue)
     for delays in ((0.5,), (1, 0.5), (2.5,)):
         for work in (0.4, 3):
